@@ -12,6 +12,8 @@
 #include <stdarg.h>
 #include <dirent.h>
 #include <sys/stat.h>
+#include <climits>
+#include <cwchar>
 #include <sys/syscall.h>
 #include <unistd.h>
 #include <algorithm>
@@ -24,6 +26,7 @@
 #include <memory>
 #include <mutex>
 #include <thread>
+#include <system_error>
 #include <tbox/base/log.h>
 #include <tbox/base/log_impl.h>
 #include <tbox/log/sink.h>
@@ -32,13 +35,43 @@
 #include <tbox/log/async_syslog_sink.h>
 #include <tbox/log/sync_stdout_sink.h>
 
-// ---- interposition: write(2) on log files may be cut short (fault plan), syslog is captured -------------
+// ---- interposition: every system call the sinks make on the objects under test takes its answer from the fault plan of
+// the op file (kfault: call index -> short count / errno) and is recorded (K lines); syslog is captured.
+//   file sink k : open(O_CREAT) / write / close on files under <base>/s<k>/, mkdir of <base>/s<k>, symlink/unlink of latest.log
+//   async stdout: write on fd 1 (the synchronous sink goes through stdio, whose internal writes cannot be interposed)
+#include <pthread.h>
+#include <poll.h>
 namespace ip {
 typedef ssize_t (*write_t)(int, const void *, size_t);
 static write_t real_write() { static write_t f = (write_t)dlsym(RTLD_NEXT, "write"); return f; }
 static std::mutex mx;
-static std::vector<uint64_t> plan; static size_t plan_pos = 0; static uint64_t injected = 0;
-static std::string log_prefix;                         // only fds whose path starts with this are faulted
+static std::vector<uint64_t> plan; static size_t plan_pos = 0; static uint64_t injected = 0;    // legacy `wfault` plan
+static std::string log_prefix;                         // only paths starting with this ("<base>/s") are sink objects
+struct KPlan { std::map<std::pair<char, uint64_t>, std::string> at; std::map<char, std::pair<uint64_t, std::string>> from; };
+static std::map<int, KPlan> kplan;                     // by sink slot
+static std::map<int, std::map<char, uint64_t>> kcount;
+static std::map<int, std::vector<std::string>> ktrace;
+static std::map<int, int> fd2sink; static int fd1_sink = 0;
+static const std::pair<const char *, int> ERRS[] = {{"EINTR", EINTR}, {"EAGAIN", EAGAIN}, {"ENOSPC", ENOSPC}, {"EIO", EIO}, {"EFBIG", EFBIG},
+    {"EDQUOT", EDQUOT}, {"EPIPE", EPIPE}, {"EMFILE", EMFILE}, {"EACCES", EACCES}, {"EEXIST", EEXIST}, {"EBADF", EBADF}};
+static int errOf(const std::string &n) { for (auto &e : ERRS) if (n == e.first) return e.second; return 0; }
+static std::string errName(int e) { for (auto &x : ERRS) if (x.second == e) return x.first; return "E" + std::to_string(e); }
+// the planned answer for the next call of `kind` on sink k ("" = let the kernel answer); caller holds mx
+static std::string answer(int k, char kind) {
+    auto pit = kplan.find(k); uint64_t idx = kcount[k][kind]++;
+    if (pit == kplan.end()) return "";
+    auto a = pit->second.at.find({kind, idx}); if (a != pit->second.at.end()) return a->second;
+    auto f = pit->second.from.find(kind); if (f != pit->second.from.end() && idx >= f->second.first) return f->second.second;
+    return "";
+}
+static int sinkOfPath(const char *path, std::string *rest = nullptr) {      // "<base>/s<k>[/...]"; caller holds mx
+    if (log_prefix.empty() || !path || strncmp(path, log_prefix.c_str(), log_prefix.size()) != 0) return 0;
+    const char *p = path + log_prefix.size(); int k = 0, nd = 0;
+    while (*p >= '0' && *p <= '9' && nd < 3) { k = k * 10 + (*p - '0'); ++p; ++nd; }
+    if (nd == 0 || (*p != '/' && *p != 0)) return 0;
+    if (rest) *rest = p;
+    return k;
+}
 static std::vector<std::pair<int, std::string>> sys_msgs;   // (priority, message)
 static void sys_add(int pri, const char *fmt, va_list ap) {
     char small[512]; va_list ap2; va_copy(ap2, ap);
@@ -49,21 +82,106 @@ static void sys_add(int pri, const char *fmt, va_list ap) {
     va_end(ap2);
     std::lock_guard<std::mutex> lk(mx); sys_msgs.emplace_back(pri, msg);
 }
+// self-deadlock probe: mutexes held by this thread; in probe mode a second lock of a held non-recursive mutex throws
+struct SelfDeadlock {};
+static thread_local pthread_mutex_t *t_held[64];     // trivially destructible: used until the very end of a thread
+static thread_local int t_nheld = 0;
+static thread_local bool t_probe = false;
+}
+extern "C" int pthread_mutex_lock(pthread_mutex_t *m) {
+    static auto real = (int (*)(pthread_mutex_t *))dlsym(RTLD_NEXT, "pthread_mutex_lock");
+    if (ip::t_probe && (m->__data.__kind & 3) == PTHREAD_MUTEX_TIMED_NP)
+        for (int i = 0; i < ip::t_nheld; ++i)
+            if (ip::t_held[i] == m) return EDEADLK;      // the real call would block for ever on a mutex this thread owns (std::mutex::lock throws system_error)
+    int r = real(m);
+    if (r == 0 && ip::t_nheld < 64) ip::t_held[ip::t_nheld++] = m;
+    return r;
+}
+extern "C" int pthread_mutex_unlock(pthread_mutex_t *m) {
+    static auto real = (int (*)(pthread_mutex_t *))dlsym(RTLD_NEXT, "pthread_mutex_unlock");
+    for (int i = ip::t_nheld - 1; i >= 0; --i)
+        if (ip::t_held[i] == m) { for (int j = i; j + 1 < ip::t_nheld; ++j) ip::t_held[j] = ip::t_held[j + 1]; --ip::t_nheld; break; }
+    return real(m);
 }
 extern "C" ssize_t write(int fd, const void *buf, size_t count) {
-    if (fd > 2 && count >= 2) {
-        std::unique_lock<std::mutex> lk(ip::mx);
-        if (ip::plan_pos < ip::plan.size() && !ip::log_prefix.empty()) {
-            char path[256]; std::string link = "/proc/self/fd/" + std::to_string(fd);
-            ssize_t n = readlink(link.c_str(), path, sizeof(path) - 1);
-            if (n > 0 && std::string(path, n).compare(0, ip::log_prefix.size(), ip::log_prefix) == 0) {
-                uint64_t v = ip::plan[ip::plan_pos++];
-                if (v == 99999) { ++ip::injected; errno = EINTR; return -1; }     // interrupted before anything was written
-                if (v > 0) { ++ip::injected; lk.unlock(); return ip::real_write()(fd, buf, std::min<uint64_t>(v, count - 1)); }
+    int k = 0; std::string ans; bool legacy = false;
+    if (fd == 1 || fd > 2) {
+        std::lock_guard<std::mutex> lk(ip::mx);
+        if (!ip::log_prefix.empty()) {
+            if (fd == 1) k = ip::fd1_sink; else { auto it = ip::fd2sink.find(fd); if (it != ip::fd2sink.end()) k = it->second; }
+        }
+        if (k) {
+            if (ip::kplan.count(k)) ans = ip::answer(k, 'w');
+            else if (fd != 1 && count >= 2 && ip::plan_pos < ip::plan.size()) {
+                uint64_t v = ip::plan[ip::plan_pos++]; legacy = true;
+                if (v == 99999) ans = "EINTR"; else if (v > 0) ans = std::to_string(std::min<uint64_t>(v, count - 1));
             }
+            if (!ans.empty()) ++ip::injected;
         }
     }
-    return ip::real_write()(fd, buf, count);
+    (void)legacy;
+    if (!k) return ip::real_write()(fd, buf, count);
+    ssize_t r; int e = 0;
+    if (ans.empty()) { r = ip::real_write()(fd, buf, count); e = errno; }
+    else if (ans == "ZERO") r = 0;
+    else if (ans[0] == 'E') { r = -1; e = ip::errOf(ans); }
+    else { r = ip::real_write()(fd, buf, std::min<uint64_t>(strtoull(ans.c_str(), nullptr, 10), count)); e = errno; }
+    { std::lock_guard<std::mutex> lk(ip::mx);
+      ip::ktrace[k].push_back("w " + std::to_string(count) + " " + (r >= 0 ? std::to_string(r) : "-" + ip::errName(e))); }
+    errno = e;
+    return r;
+}
+static int open_impl(const char *path, int flags, mode_t mode) {
+    static auto real = (int (*)(const char *, int, ...))dlsym(RTLD_NEXT, "open");
+    int k = 0; std::string ans;
+    if (flags & O_CREAT) { std::lock_guard<std::mutex> lk(ip::mx); k = ip::sinkOfPath(path); if (k) { ans = ip::answer(k, 'o'); if (!ans.empty()) ++ip::injected; } }
+    if (!k) return real(path, flags, mode);
+    int fd, e = 0;
+    if (!ans.empty() && ans[0] == 'E') { fd = -1; e = ip::errOf(ans); } else { fd = real(path, flags, mode); e = errno; }
+    { std::lock_guard<std::mutex> lk(ip::mx);
+      if (fd >= 0) ip::fd2sink[fd] = k;
+      ip::ktrace[k].push_back(std::string("o ") + (fd >= 0 ? "ok" : "-" + ip::errName(e))); }
+    errno = e;
+    return fd;
+}
+extern "C" int open(const char *path, int flags, ...) {
+    mode_t mode = 0; if (flags & O_CREAT) { va_list ap; va_start(ap, flags); mode = (mode_t)va_arg(ap, int); va_end(ap); }
+    return open_impl(path, flags, mode);
+}
+extern "C" int open64(const char *path, int flags, ...) {
+    mode_t mode = 0; if (flags & O_CREAT) { va_list ap; va_start(ap, flags); mode = (mode_t)va_arg(ap, int); va_end(ap); }
+    return open_impl(path, flags, mode);
+}
+extern "C" int close(int fd) {
+    static auto real = (int (*)(int))dlsym(RTLD_NEXT, "close");
+    int k = 0; std::string ans;
+    if (fd > 2) { std::lock_guard<std::mutex> lk(ip::mx); auto it = ip::fd2sink.find(fd);
+        if (it != ip::fd2sink.end()) { k = it->second; ip::fd2sink.erase(it); ans = ip::answer(k, 'c'); if (!ans.empty()) ++ip::injected; ip::ktrace[k].push_back("c " + (ans.empty() ? std::string("ok") : "-" + ans)); } }
+    int r = real(fd);                      // Linux releases the descriptor whatever close() reports
+    if (k && !ans.empty() && ans[0] == 'E') { errno = ip::errOf(ans); return -1; }
+    return r;
+}
+extern "C" int symlink(const char *target, const char *linkpath) {
+    static auto real = (int (*)(const char *, const char *))dlsym(RTLD_NEXT, "symlink");
+    int k = 0; std::string ans;
+    { std::lock_guard<std::mutex> lk(ip::mx); k = ip::sinkOfPath(linkpath); if (k) { ans = ip::answer(k, 'y'); if (!ans.empty()) ++ip::injected; } }
+    if (!k) return real(target, linkpath);
+    int r, e = 0;
+    if (!ans.empty() && ans[0] == 'E') { r = -1; e = ip::errOf(ans); } else { r = real(target, linkpath); e = errno; }
+    { std::lock_guard<std::mutex> lk(ip::mx); ip::ktrace[k].push_back(std::string("y ") + (r == 0 ? "ok" : "-" + ip::errName(e))); }
+    errno = e;
+    return r;
+}
+extern "C" int mkdir(const char *path, mode_t mode) {
+    static auto real = (int (*)(const char *, mode_t))dlsym(RTLD_NEXT, "mkdir");
+    int k = 0; std::string ans, rest;
+    { std::lock_guard<std::mutex> lk(ip::mx); k = ip::sinkOfPath(path, &rest); if (k && !rest.empty()) k = 0; if (k) { ans = ip::answer(k, 'd'); if (!ans.empty()) ++ip::injected; } }
+    if (!k) return real(path, mode);
+    int r, e = 0;
+    if (!ans.empty() && ans[0] == 'E') { r = -1; e = ip::errOf(ans); } else { r = real(path, mode); e = errno; }
+    { std::lock_guard<std::mutex> lk(ip::mx); ip::ktrace[k].push_back(std::string("d ") + (r == 0 ? "ok" : "-" + ip::errName(e))); }
+    errno = e;
+    return r;
 }
 extern "C" void syslog(int pri, const char *fmt, ...) { va_list ap; va_start(ap, fmt); ip::sys_add(pri, fmt, ap); va_end(ap); }
 extern "C" void __syslog_chk(int pri, int, const char *fmt, ...) { va_list ap; va_start(ap, fmt); ip::sys_add(pri, fmt, ap); va_end(ap); }
@@ -165,6 +283,7 @@ void endCase() {
     if (g_real_out != 1) { if (ftruncate(1, 0) != 0) {} lseek(1, 0, SEEK_SET); }
     std::lock_guard<std::mutex> lk(ip::mx);
     ip::plan.clear(); ip::plan_pos = 0; ip::injected = 0; ip::sys_msgs.clear(); ip::log_prefix.clear();
+    ip::kplan.clear(); ip::kcount.clear(); ip::ktrace.clear(); ip::fd2sink.clear(); ip::fd1_sink = 0;
 }
 void beginCase() {
     endCase();
@@ -185,6 +304,11 @@ void worker(int run, int tag, std::vector<Msg> msgs, unsigned pace_us) {
     for (const Msg &m : msgs) {
         if (pace_us) usleep(pace_us * (20 + (m.seed * 37 + m.line) % 160) / 100);     // 0.2 .. 1.8 x pace: lets the pipe's timed flush fire
         if (m.kind == 'n') { LogPrintfFunc(m.mod, m.func, m.file, m.line, m.level, 1, nullptr); continue; }
+        // width family: the formatted length is a printf field width (no memory needed): 'w' = len bytes (blanks, then '7');
+        // 'o' = INT_MAX + len bytes: vsnprintf fails with EOVERFLOW; 'e' = a wide character the "C" locale cannot encode: EILSEQ
+        if (m.kind == 'w') { LogPrintfFunc(m.mod, m.func, m.file, m.line, m.level, 1, "%*d", (int)std::max<uint64_t>(m.len, 1), 7); continue; }
+        if (m.kind == 'o') { LogPrintfFunc(m.mod, m.func, m.file, m.line, m.level, 1, "%*d%*d", INT_MAX, 7, (int)std::max<uint64_t>(m.len, 1), 7); continue; }
+        if (m.kind == 'e') { LogPrintfFunc(m.mod, m.func, m.file, m.line, m.level, 1, "ab%lcde", (wint_t)0x20AC); continue; }
         std::string body = genText(m.len, m.seed);
         if (m.kind == 'p') LogPrintfFunc(m.mod, m.func, m.file, m.line, m.level, 1, "%s", body.c_str());
         else if (m.kind == 'f') LogPrintfFunc(m.mod, m.func, m.file, m.line, m.level, 1, "%d|%s", (int)m.seed, body.c_str());
@@ -210,9 +334,9 @@ bool parseMsg(const std::string &w, int T, Msg &m) {
     if (f.size() != 9) return false;
     uint64_t t, len, seed; int64_t lv, ln;
     if (!vh::to_u64(f[0], t) || !vh::to_i64(f[1], lv) || !vh::to_i64(f[5], ln) || !vh::to_u64(f[7], len) || !vh::to_u64(f[8], seed)) return false;
-    if (f[0].size() > 9 || f[1].size() > 9 || f[5].size() > 11 || f[7].size() > 9 || f[8].size() > 9) return false;
-    if (t >= (uint64_t)T || len > 200000 || seed > 1000000 || std::llabs(ln) > 1000000000 || std::llabs(lv) > 1000) return false;
-    if (f[6].size() != 1 || !strchr("psnf", f[6][0])) return false;
+    if (f[0].size() > 9 || f[1].size() > 9 || f[5].size() > 11 || f[7].size() > 10 || f[8].size() > 9) return false;
+    if (f[6].size() != 1 || !strchr("psnfwoe", f[6][0])) return false;
+    if (f[7].size() > 10 || t >= (uint64_t)T || len > (f[6][0] == 'w' ? 2147483647u : 200000u) || seed > 1000000 || std::llabs(ln) > 1000000000 || std::llabs(lv) > 1000) return false;
     if (f[2] != "-" && !nameOk(f[2], false)) return false;
     if (f[3] != "-" && !nameOk(f[3], false)) return false;
     if (f[4] != "-" && !nameOk(f[4], true)) return false;
@@ -295,6 +419,7 @@ bool parseLine(const std::string &l0, int &tag, std::string &out, std::string &m
 }
 
 void emitListing(int k, const std::vector<std::string> &files) {
+    { std::lock_guard<std::mutex> lk(ip::mx); for (auto &e : ip::ktrace[k]) OUT << "K " << k << ' ' << e << "\n"; ip::ktrace[k].clear(); }
     for (size_t i = 0; i < files.size(); ++i) {
         const std::string &data = files[i];
         // size as on disk, and size with every OS thread id replaced by its thread tag (what the model renders)
@@ -419,6 +544,7 @@ int main() {
                 if (w[1] == "sout") s.other.reset(new tbox::log::SyncStdoutSink);
                 else if (w[1] == "aout") { auto *p = new tbox::log::AsyncStdoutSink; p->setConfig(cfg); s.other.reset(p); }
                 else { auto *p = new tbox::log::AsyncSyslogSink; p->setConfig(cfg); s.other.reset(p); }
+                if (w[1] == "aout") { std::lock_guard<std::mutex> lk(ip::mx); ip::fd1_sink = (int)g_sinks.size() + 1; }
                 s.other->enable();
                 g_sinks.push_back(std::move(s));
                 OUT << "P sink " << g_sinks.size() << ' ' << w[1] << "\n";
@@ -430,6 +556,43 @@ int main() {
             for (size_t i = 1; i < w.size() && ok; ++i) { uint64_t v; ok = w[i].size() <= 6 && vh::to_u64(w[i], v); if (ok) pl.push_back(v); }
             if (!ok) OUT << "bad-op\n";
             else { std::lock_guard<std::mutex> lk(ip::mx); ip::plan = pl; ip::plan_pos = 0; OUT << "P wfault\n"; }
+        } else if (op == "kfault" && w.size() >= 3 && w.size() <= 66 && slotOf(w[1], k) && (g_sinks[k - 1].kind == "file" || g_sinks[k - 1].kind == "aout")) {
+            // kfault <k> <c><idx>=<answer> ...: the answer of the idx-th (0-based, counted from now) call of kind c on sink k:
+            //   w write, o open, c close, y symlink, d mkdir; an upper-case kind letter = that call and every later one;
+            //   answer = byte count (short write, clamped to what was asked) | ZERO | EINTR EAGAIN ENOSPC EIO EFBIG EDQUOT EPIPE EMFILE EACCES EEXIST EBADF
+            ip::KPlan pl; bool ok = true;
+            for (size_t i = 2; i < w.size() && ok; ++i) {
+                const std::string &e = w[i]; size_t eq = e.find('=');
+                ok = eq != std::string::npos && eq >= 2 && eq <= 5 && strchr("wocydWOCYD", e[0]) != nullptr;
+                uint64_t idx = 0; std::string a = ok ? e.substr(eq + 1) : "";
+                ok = ok && vh::to_u64(e.substr(1, eq - 1), idx) && !a.empty() && a.size() <= 7;
+                char kind = ok ? (char)tolower(e[0]) : 'w';
+                bool num = ok && isdigit((unsigned char)a[0]);
+                if (ok && num) { uint64_t v; ok = vh::to_u64(a, v) && v >= 1 && kind == 'w'; }
+                else if (ok) ok = (a == "ZERO" && kind == 'w') || ip::errOf(a) != 0;
+                if (ok) { if (isupper((unsigned char)e[0])) pl.from[kind] = {idx, a}; else pl.at[{kind, idx}] = a; }
+            }
+            if (!ok) OUT << "bad-op\n";
+            else { std::lock_guard<std::mutex> lk(ip::mx); ip::kplan[(int)k] = pl; ip::kcount[(int)k].clear(); OUT << "P kfault\n"; }
+        } else if (op == "settle" && w.size() == 2 && w[1].size() <= 3 && vh::to_u64(w[1], n) && n >= 1 && n <= 200) {
+            usleep((useconds_t)n * 1000);      // lets the back ends drain their pipes: what follows happens after those flushes (no observable depends on it)
+            OUT << "P settle\n";
+        } else if (op == "reent" && w.size() == 1 && g_sinks.empty()) {
+            // a channel function that logs from inside Dispatch(): the nested call locks the dispatch mutex its own thread holds
+            static std::string result;
+            struct L { static void fn(const LogContent *c, void *) {
+                if (strcmp(c->module_id, "reent") != 0) return;
+                ip::t_probe = true;
+                try { LogPrintfFunc("inner", "f", "x.cpp", 1, 5, 1, "%s", "nested"); result = "returned"; }
+                catch (std::system_error &e) { result = e.code().value() == EDEADLK ? "deadlock" : "error"; }
+                ip::t_probe = false;
+            } };
+            result = "not-called";
+            uint32_t id = LogAddPrintfFunc(L::fn, nullptr);
+            LogPrintfFunc("reent", "f", "x.cpp", 1, 5, 1, "%s", "outer");
+            LogRemovePrintfFunc(id);
+            g_raw.clear();
+            OUT << "M reent " << result << "\n";
         } else if (op == "lvl" && w.size() == 4 && slotOf(w[1], k) && w[3].size() <= 9 && vh::to_i64(w[3], lv) && (w[2] == "*" || nameOk(w[2], false))) {
             if (w[2] == "*") g_sinks[k - 1].base()->setLevel((int)lv); else g_sinks[k - 1].base()->setLevel(w[2], (int)lv);
             OUT << "P lvl\n";
@@ -438,6 +601,7 @@ int main() {
         } else if (op == "on" && w.size() == 2 && slotOf(w[1], k)) {
             bool r = g_sinks[k - 1].base()->enable(); g_sinks[k - 1].enabled = true; OUT << "P on " << k << ' ' << (r ? 1 : 0) << "\n";
         } else if (op == "off" && w.size() == 2 && slotOf(w[1], k)) {
+            { std::lock_guard<std::mutex> lk(ip::mx); ip::ktrace[(int)k].push_back("off-begin"); }
             g_sinks[k - 1].base()->disable(); g_sinks[k - 1].enabled = false; g_sinks[k - 1].dirty = false;
             // everything logged before disable() must be on disk / on fd 1 / handed to syslog NOW
             if (g_sinks[k - 1].is_file) listFiles((int)k, g_sinks[k - 1]);
